@@ -79,6 +79,22 @@ def _swarm(rng, variant):
     return gen_kwargs, knobs
 
 
+def _digest(obj):
+    import hashlib
+    import json
+    return hashlib.sha256(repr(_canon(obj)).encode()).hexdigest()[:20]
+
+
+def _canon(o):
+    if isinstance(o, dict):
+        return sorted(((repr(k), _canon(v)) for k, v in o.items()))
+    if isinstance(o, (list, tuple)):
+        return [_canon(x) for x in o]
+    if isinstance(o, (set, frozenset)):
+        return sorted(repr(x) for x in o)
+    return o
+
+
 def seq(world, seed, params):
     """Fault-free sequential history with the model in lock-step."""
     rng = random.Random(seed)
@@ -107,6 +123,7 @@ def _seq_result(run, findings, params, knobs):
         'sim_seconds': (run.sim.now - __import__('datetime').datetime(
             2026, 1, 1)).total_seconds(),
         'sample': [list(h) for h in run.history[:12]],
+        'log_digest': _digest([run.history, run.nat]),
     }
     for f in findings:
         j = f.to_json()
@@ -208,6 +225,11 @@ def conc(world, seed, params):
     out['by_status'] = {}
     for s in run.statuses:
         out['by_status'][str(s)] = out['by_status'].get(str(s), 0) + 1
+    out['log_digest'] = _digest([
+        run.setup_ops, [workload.op_brief(op) for op in run.batch],
+        run.sim.schedule, run.sim.sig, run.statuses,
+        [(e['task'], e['changed'], e['state']) for e in run.sim.commit_log],
+        [(f['rule'], f['kind']) for f in findings]])
     out['sample'] = {
         'setup_requests': len(run.setup_ops),
         'batch': [workload.op_brief(op) for op in run.batch],
@@ -286,6 +308,10 @@ def _fault_like(world, seed, params, mode):
     shape = '|'.join('%s%s' % (o[2][:3], o[3]) for o in run.ordinals)
     out['signatures'] = ['%s:%s' % (R['kind'], __import__('hashlib').sha256(
         (shape + str(run.twin_status)).encode()).hexdigest()[:12])]
+    out['log_digest'] = _digest([
+        run.setup_ops, workload.op_brief(R), run.twin_status,
+        run.ordinals, run.stats['outcomes'], run.stats['faults'],
+        [(f['rule'], f['kind'], f.get('sig_extra')) for f in findings]])
     out['sample'] = {
         'setup_requests': len(run.setup_ops),
         'request': workload.op_brief(R),
@@ -372,6 +398,9 @@ def _cand(world, seed, params, mode):
                                      run.stats['queries']}}
     if run.stats['queries'] and getattr(run, 'nat', None) is not None:
         out['states'] = [dump_digest(run.nat)]
+    out['log_digest'] = _digest([run.ops, run.stats['probes'],
+                                 run.samples,
+                                 [(f['rule'], f['detail']) for f in findings]])
     out['sample'] = run.samples
     seen = set()
     for f in findings:
